@@ -1107,7 +1107,9 @@ class SingleInstancePredictor(Predictor):
                 f"{self.backbone_type}"
             ]["max_stride"]
 
-            self.preprocess = False
+            # frames are resized to the input scale and padded to the max stride here,
+            # exactly as for the VideoReader (the inference model does not do it).
+            self.preprocess = True
             self.preprocess_config = {
                 "batch_size": self.batch_size,
                 "scale": self.confmap_config.data_config.preprocessing.scale,
@@ -1481,7 +1483,9 @@ class BottomUpPredictor(Predictor):
                 f"{self.backbone_type}"
             ]["max_stride"]
 
-            self.preprocess = False
+            # frames are resized to the input scale and padded to the max stride here,
+            # exactly as for the VideoReader (the inference model does not do it).
+            self.preprocess = True
             self.preprocess_config = {
                 "batch_size": self.batch_size,
                 "scale": self.bottomup_config.data_config.preprocessing.scale,
